@@ -47,6 +47,9 @@ ASSUMPTIONS = [
     "does not say which wins: the entry must equal one of them (labelled conflict)",
     "small models: every vertex distance stays >= 1.2e-5 (100 x the library's merge tolerance 1e-7); arc kinds are left "
     "out there because the library's absolute collinearity tolerance drops small arcs (known finding C08-N2)",
+    "write histories (write twice / assemble+backport / assemble+clear / write+clear, then the judged write) are drawn in "
+    "every model cell; the slid-vertices cell keeps new vertex positions inside the original edge (first 35 % / last "
+    "35 % of the curve between the old vertices)",
     "shared-array cell: the expected curve of a holder is the user's points plus that holder's own displacement "
     "(in-place translate() of the operation / face); holders are 10 block diagonals apart so no vertices coincide",
     "projection sequences: labels(edge) = surfaces of all sides projected with edges=True that contain the edge + "
@@ -237,10 +240,50 @@ def written_text(case, b: Built, facts) -> str:
         except Exception as ex:
             raise Violation("assemble-failed", f"{type(ex).__name__}: {ex}", **facts) from None
     try:
+        # history before the judged write: the same Mesh is assembled / written more than once
+        hist = case.get("write_history", "once")
+        if hist == "backport":
+            b.mesh.assemble()
+            b.mesh.backport()
+        elif hist == "clear":
+            b.mesh.assemble()
+            b.mesh.clear()
+        elif hist == "write-clear":
+            lt.write_text(b.mesh)
+            b.mesh.clear()
+        elif hist == "twice":
+            lt.write_text(b.mesh)
         text, _ = lt.write_text(b.mesh)
     except Exception as ex:
         raise Violation("write-failed", f"a well-posed model was not written: {type(ex).__name__}: {ex}", **facts) from None
     return text
+
+
+WRITE_HISTORIES = ["once", "once", "twice", "backport", "clear", "write-clear"]
+
+
+def slide_vertices(case, b: Built, facts) -> None:
+    """the two mesh vertices of operation 0's (only) curve edge are moved along the user's curve with move_to"""
+    d = next(iter(b.decls[0].values()))
+    old = d.truth
+    span = old.span()
+    new = old.slid(case["slide"][0] * span, case["slide"][1] * span)
+    try:
+        for target, where in ((old.X, new.X), (old.Y, new.Y)):
+            hit = [v for v in b.mesh.vertices if np.linalg.norm(np.asarray(v.position) - target) < 1e-9]
+            if len(hit) != 1:
+                raise Violation("vertex-off-lattice", "no single mesh vertex at the end of the curve edge", **facts)
+            hit[0].move_to(where)
+    except Violation:
+        raise
+    except Exception as ex:
+        raise Violation("move-failed", f"{type(ex).__name__}: {ex}", **facts) from None
+    b.pos = b.pos.copy()
+    b.pos[d.x], b.pos[d.y] = new.X, new.Y
+    for decls in b.decls:
+        for dd in decls.values():
+            if dd.truth is old:
+                dd.truth = new
 
 
 # --------------------------------------------------------------------------------------------------
@@ -258,6 +301,18 @@ def check_model(case, ctx: Ctx) -> None:
     b = build(case)
     facts = case_facts(case, b)
     text = written_text(case, b, facts)
+    if case.get("slide"):
+        judge(case, b, text, facts, None)
+        slide_vertices(case, b, facts)
+        facts = dict(facts, after_slide=True)
+        try:
+            text, _ = lt.write_text(b.mesh)  # the assembled mesh is written again, no re-assembly
+        except Exception as ex:
+            raise Violation("write-failed", f"second write after moving vertices: {type(ex).__name__}: {ex}", **facts) from None
+    judge(case, b, text, facts, ctx)
+
+
+def judge(case, b: Built, text: str, facts, ctx: Optional[Ctx]) -> None:
     try:
         bmd = lt.parse(text)
     except FoamParseError as ex:
@@ -369,6 +424,8 @@ def check_model(case, ctx: Ctx) -> None:
                     **dict(facts, edge_kind=d.truth.kind if d else "line", wire_edge_kind=str(wire.edge.kind),
                            owner_before_definer=bool(definer is not None and bi < definer)))
 
+    if ctx is None:
+        return
     # bookkeeping
     nt = False
     for key, d in matched.items():
@@ -390,6 +447,9 @@ def check_model(case, ctx: Ctx) -> None:
         ctx.label("hist:" + ("+".join(s[0] for s in o["history"]) or "given"))
     for r in b.face_role:
         ctx.label("face-as-" + r)
+    ctx.label("write:" + case.get("write_history", "once"))
+    if case.get("slide"):
+        ctx.label("slid:" + ("both" if case["slide"][0] > 0 and case["slide"][1] < 1 else "one-end"))
     if "scale" in case:
         ctx.label("scale=%g" % case["scale"])
         lens = [d.truth.chord for d in matched.values()]
@@ -441,13 +501,13 @@ def _op(draw, cell, inverts="even", with_face=True):
 
 
 @st.composite
-def single_case(draw, kinds, inverts="even", pre_only=False, degenerate=()):
+def single_case(draw, kinds, inverts="even", pre_only=False, degenerate=(), max_edges=3):
     case = draw(_lattice((1, 1, 1)))
     op = draw(_op(0, inverts))
     slots = [("pre", m) for m in range(4)]
     if not pre_only:
         slots += [("opp", i) for i in range(4)] + [("side", i) for i in range(4)]
-    n = draw(st.integers(1, 3))
+    n = draw(st.integers(1, max_edges))
     chosen = draw(st.permutations(slots))[:n]
     for j, (w, i) in enumerate(chosen):
         pool = kinds if (j == 0 or not degenerate) else tuple(kinds) + tuple(degenerate)
@@ -458,6 +518,7 @@ def single_case(draw, kinds, inverts="even", pre_only=False, degenerate=()):
             op["post"].append({"where": [w, i], "spec": sp})
     case["ops"] = [op]
     case["order"] = [0]
+    case["write_history"] = draw(st.sampled_from(WRITE_HISTORIES))
     return case
 
 
@@ -522,6 +583,7 @@ def shared_case(draw, mode, order=None, kinds=xe.ALL_VALID, first_kinds=None):
     case["ops"] = [a, b_]
     case["order"] = list(order) if order else draw(st.sampled_from([[0, 1], [1, 0]]))
     case["share"] = {"mode": mode, "contact": contact}
+    case["write_history"] = draw(st.sampled_from(WRITE_HISTORIES))
     return case
 
 
@@ -542,8 +604,7 @@ GRID_SPECS = {
                      "trail": None, "reverse": False, "n": 3, "repr": "polyLine"},
 }
 GRID_HISTORIES = {
-    "even": [[], [["shift", 1]], [["reorient", 2]], [["shift", 3], ["shift", 2]], [["invert"], ["invert"]],
-             [["invert"], ["shift", 1], ["invert"]]],
+    "even": [[], [["shift", 1]], [["reorient", 2]], [["invert"], ["shift", 1], ["invert"]]],
     "odd": [[["invert"]], [["shift", 1], ["invert"]], [["invert"], ["reorient", 1]]],
 }
 
@@ -583,6 +644,22 @@ def small_case(draw):
     else:
         case = draw(shared_case(draw(st.sampled_from(["nothing", "same"])), kinds=SMALL_KINDS))
     case["scale"] = draw(st.sampled_from(SCALES))
+    return case
+
+
+@st.composite
+def slide_case(draw):
+    """exactly one geometric edge, snapped to a curve; after the first write its vertices move along the curve"""
+    if draw(st.booleans()):
+        case = draw(single_case(xe.CURVE_KINDS, max_edges=1))
+    else:
+        case = draw(shared_case(draw(st.sampled_from(["nothing", "same"])), kinds=xe.CURVE_KINDS))
+    a = draw(st.sampled_from([0.0, 0.1, 0.2, 0.35]) | st.floats(0.0, 0.35))
+    b_ = draw(st.sampled_from([1.0, 0.9, 0.8, 0.65]) | st.floats(0.65, 1.0))
+    if a == 0.0 and b_ == 1.0:
+        a = 0.25
+    case["slide"] = [a, b_]
+    case["write_history"] = "once"
     return case
 
 
@@ -632,6 +709,7 @@ def projection_case(draw):
         case = draw(_lattice((1, 1, 1)))
         case["ops"] = [draw(_op(0, "even"))]
         case["order"] = [0]
+        case["write_history"] = draw(st.sampled_from(WRITE_HISTORIES))
     n_ops = len(case["ops"])
     calls: List[list] = []
     labels = [{p: set() for p in range(12)} for _ in range(n_ops)]
@@ -729,7 +807,7 @@ def check_projection(case, ctx: Ctx) -> None:
             if c[0] == "side" and c[2] in ("bottom", "top"):
                 seen[c[1]][p].add("F" + c[2])
     ctx.nt(len(want) >= 1 and len(case["calls"]) >= 2)
-    ctx.label("calls=%d" % len(case["calls"]), "ops=%d" % len(case["ops"]))
+    ctx.label("calls=%d" % len(case["calls"]), "ops=%d" % len(case["ops"]), "write:" + case.get("write_history", "once"))
     ctx.label("two-label-edges" if n_two else "single-label-only")
     if face_then_more:
         ctx.label("face-with-edges-then-second-surface")
@@ -852,7 +930,7 @@ def check_shared_array(case, ctx: Ctx) -> None:
 
 
 CELLS = [
-    Cell("C07/single/as-drawn", single_case(xe.ALL_VALID), check_model, 350, 12000,
+    Cell("C07/single/as-drawn", single_case(xe.ALL_VALID), check_model, 300, 12000,
          "one operation, 1-3 user edges of any kind on face (before shift/reorient/double-invert), opposite face, "
          "sides; grid kind x slot x history enumerated first",
          fixed_cases=grid(xe.ALL_VALID, "even", ALL_SLOTS)),
@@ -879,6 +957,10 @@ CELLS = [
     Cell("C07/small-model", small_case(), check_model, 250, 8000,
          "the same models given in small units (scale 1e-2 ... 1e-4, vertex distances down to 1.2e-5): spline, polyLine, "
          "project and curve edges still appear exactly once", fixed_cases=small_grid()),
+    Cell("C07/curve/slid-vertices", slide_case(), check_model, 120, 4000,
+         "one edge snapped to a line / circle / interpolated curve (one operation, or two sharing it): written, then "
+         "its end vertices are moved along the curve with move_to and the assembled mesh is written again; both files "
+         "are judged, the second against the current vertex positions (points between them, ordered; Edge.length)"),
     Cell("C07/shared-array/translated", shared_array_case(), check_shared_array, 300, 9000,
          "spline / polyLine points given as ONE float64 array to the edges of 2-3 operations (or of the bottom and top "
          "face of one) that are then moved to their places with the in-place translate(): every entry = the user's "
